@@ -196,7 +196,14 @@ impl State {
         match action {
             // RefIncs are not dependent w/ RefDec, only inspections
             Action::RefInc => self.last_ref_inspect.as_ref(),
-            Action::RefDec => self.last_ref_dec.as_ref(),
+            // A decrement changes what an inspection (`strong_count`,
+            // `get_mut`, `try_unwrap`) observes, so it depends on the last
+            // inspection as well as on the last decrement: the later one.
+            Action::RefDec => match (self.last_ref_dec.as_ref(), self.last_ref_inspect.as_ref()) {
+                (Some(dec), Some(inspect)) if inspect.path_id() > dec.path_id() => Some(inspect),
+                (Some(dec), _) => Some(dec),
+                (None, inspect) => inspect,
+            },
             Action::Inspect => match self.last_ref_modification {
                 Some(RefModify::RefInc) => self.last_ref_inc.as_ref(),
                 Some(RefModify::RefDec) => self.last_ref_dec.as_ref(),
